@@ -13,7 +13,7 @@ reg("C22",
          "union with an empty source/handoff() on random edges, shuffled declaration order) selected so that operators "
          "flip between pull and push and subgraphs split or merge; all variants must compile or none (front end observed "
          "in-process, rustc per crate with a one-crate-per-program second pass), and every compiled variant must produce the "
-         "base variant's per-tick trace on 200 / 2 000 random histories (sequences where order is documented, multisets "
+         "base variant's per-tick trace on 200 / 600 random histories (sequences where order is documented, multisets "
          "otherwise). " + _T,
     note="Oracle = the sibling variant (no reference interpreter); multi-input operators are always pull, so flips concern the "
          "20 unary operators; order-sensitive operators (enumerate, zip, scan, non-commutative fold) are only placed on "
